@@ -205,7 +205,7 @@ fn usizes(a: &Arg) -> Option<Vec<usize>> {
 // ---------------------------------------------------------------------------------------------------------------
 // running ops on the real crate
 
-fn verify_reply(h: usize, leafs: &[(usize, Digest)], auth: &[Digest], root: Digest, st: &mut Stats) -> (String, Option<String>) {
+pub fn verify_reply(h: usize, leafs: &[(usize, Digest)], auth: &[Digest], root: Digest, st: &mut Stats) -> (String, Option<String>) {
     let proof = MerkleTreeInclusionProof { tree_height: h, indexed_leafs: leafs.to_vec(), authentication_structure: auth.to_vec() };
     let verdict = proof.verify(root);
     let (want, class) = ref_verify(h, leafs, auth, root);
@@ -245,7 +245,7 @@ fn height_class(h: usize) -> &'static str {
     }
 }
 
-fn paths_reply(h: usize, leafs: &[(usize, Digest)], auth: &[Digest], st: &mut Stats) -> (String, Option<String>) {
+pub fn paths_reply(h: usize, leafs: &[(usize, Digest)], auth: &[Digest], st: &mut Stats) -> (String, Option<String>) {
     let proof = MerkleTreeInclusionProof { tree_height: h, indexed_leafs: leafs.to_vec(), authentication_structure: auth.to_vec() };
     let got = proof.into_authentication_paths();
     let (verdict, pt) = ref_check(h, leafs, auth);
